@@ -247,17 +247,16 @@ def main(argv):
     # level 3: conditionals on level-2 conditions, comparisons between level-2 scalars and real terminals
     c = []
     conds2 = [s for s in l2 if s.cond]
-    if quick:
-        conds2 = sorted(conds2, key=lambda s: (len(repr(s.recipe)), repr(s.recipe)))[:1200]
+    cap = 1200 if quick else 12000  # level 2 has ~1e5 states; the comb level takes the shortest recipes
+    conds2 = sorted(conds2, key=lambda s: (len(repr(s.recipe)), repr(s.recipe)))[:cap]
     for cnd in conds2:
         c.append(("conditional", cnd.recipe, ("t", "f"), ("t", "two")))
         c.append(("Not", cnd.recipe))
     sc2 = [s for s in l2 if not s.cond and s.rank == 0 and not s.fid]
-    if quick:
-        short = sorted(sc2, key=lambda s: (len(repr(s.recipe)), repr(s.recipe)))[:1200]
-        chosen = {id(s) for s in short}
-        # every conditional is compared again (its type is decided from its branches), in both tiers
-        sc2 = short + [s for s in sc2 if id(s) not in chosen and s.recipe[0] == "conditional"]
+    short = sorted(sc2, key=lambda s: (len(repr(s.recipe)), repr(s.recipe)))[:cap]
+    chosen = {id(s) for s in short}
+    # every conditional is compared again (its type is decided from its branches), in both tiers
+    sc2 = short + [s for s in sc2 if id(s) not in chosen and s.recipe[0] == "conditional"]
     for s in sc2:
         for op in ("lt", "max_value"):
             c.append((op, s.recipe, ("t", "two")))
